@@ -35,6 +35,52 @@ Counters confirm (REQUIRE): reset-mode calls (2nd or later of a body) on a field
 3-D evaluations with non-zero integral and stiffness (s_max**(d-1) vs s_max*(d-1) differ only for d = 3).  Not added: a body
 with N == dim markers (a new (dx, N) closure set per dimension and precision).
 
+Argument dimensions (added later; nothing asserted before was changed; every new execution is compared with the SAME executable model
+and running noise floors -- never with another execution):
+ (a) array layout -- interactions: every third history (``history_layout``) hands the constructor an Eulerian forcing field and a flow
+     velocity field that are NON-contiguous views holding the same values (interior of a sentinel-padded parent / every second cell of a
+     parent = numba layout 'A'; column-major = 'F'); the interactions own every Lagrangian array, so those cannot be varied there.
+     ``run_direct`` therefore drives ``VirtualBoundaryForcing`` itself (the class both interactions inherit the PI law from, called with
+     the same keyword calls) and passes, per call, flow field, forcing field and marker velocities contiguous / as such views /
+     column-major, marker positions C-contiguous or as (N, d) storage passed as ``.T``; results are read back through
+     ``np.ascontiguousarray``.  Counters histories_noncontiguous_eulerian_fields, vbf_calls_with_noncontiguous_array_arguments.
+     EXCLUDED: strided marker positions (numba refuses ``reshape`` on them at typing: a loud rejection, see the C06 docstring).
+ (b) histories of temporary views -- ``run_direct`` stage 2: K = 3..6 {full evaluation, time_step} rounds on ONE forcing object in a
+     tight loop where every array argument is ``stack[name][k]`` (fresh temporary views of different memory; CPython recycles their
+     id()); afterwards every ``stack["f"][k]`` and the final marker force / integral / mismatch / clock are compared with the model
+     replayed over the same inputs.  Counter vbf_calls_with_temporary_view_arguments.  Not applicable to the interactions: they bind
+     their arrays at construction and pass the same objects on every call.
+ (c) exact zeros -- interactions: ``time_step(0)`` (8 % of the steps; integral and clock must keep their VALUES: I + 0 * e = I),
+     all-zero flow fields (15 % of the flow overwrites; with a body at rest the model's floor for the velocity mismatch is 0, i.e. the
+     existing comparison is exact there), counters for the existing 6 % draws of stiffness 0 / damping 0.  ``run_direct``: stiffness 0
+     with damping != 0 and damping 0 with stiffness != 0 as dedicated cases (j % 4 == 0 / 1); a fresh object evaluated on fluid and
+     markers at rest (e = 0 and F = 0 exactly; the all-zero marker force leaves a finite sentinel-free forcing field unchanged in
+     accumulate mode and exactly zero in reset mode); the same again after a history when the stiffness is 0 (0 * I = 0); ``time_step(0)``
+     in every scalar type; a non-zero step with e = 0 exactly (integral unchanged).  All by value (-0.0 == 0.0).
+ (d) scalar types -- dt as python float / np.float64 / working-precision scalar / 0-d array (interactions and ``run_direct``); in
+     ``run_direct`` also dx, eul_grid_coord_shift, both coefficients and the start time (the start time never as a 0-d array: ``self.time
+     += dt`` would update the caller's array in place, Python semantics that say nothing about the PI law).  The model uses float(arg).
+ (e) finalize()-like rebinding -- every fourth history replaces, at one point, every ndarray attribute of one body by another array object
+     holding the same values (``rv.bodies.rebind_arrays``: what PyElastica's ``simulator.finalize()`` does after the interactor was built),
+     moves the body through its new arrays and evaluates the SAME interaction object again; judged by the existing monitors
+     (evaluation-uses-stale-markers, model comparison).  Counters histories_with_body_arrays_rebound_like_finalize,
+     evaluations_after_body_arrays_rebound.
+False alarm corrected while adding (c): my first version demanded that ``time_step(0)`` leaves the clock bit-for-bit unchanged; with
+``dt = np.float32(0)`` NumPy-2 promotion turns a python-float clock into a float32 (soundness note 3 below), i.e. the value is rounded once
+to the working precision.  Check too strict: the clock after ``time_step(0)`` is now compared within one working-precision rounding
+(eps_t * |t|); the integral is still compared by value.
+Self-test of (a)-(e) (tools/mut.sh, quick tier, seed 0, VBF; every witness carries the new dimension):
+  M18 (a) spreading target ``np.ascontiguousarray(eul_grid_forcing_field)`` (a copy for non-contiguous fields)          VIOLATION  eul-forcing!=model, only in histories with 'eulerian_field_layout'
+                                                                                                                                    views | fortran and in direct calls with such arguments
+  M19 (b) cache of prepared forcing-field views keyed by id(eul_grid_forcing_field) (``field[...]``, no reference kept)  VIOLATION  eul-forcing!=model in the temporary-view histories ("call 1 of 6 ...") and in direct
+                                                                                                                                    calls whose field is a temporary layout view; never in an interaction history
+  M20 (c) Euler forward rewritten as ``dt * (I / dt + e)`` (equal up to rounding for dt != 0, NaN for dt = 0)            VIOLATION  integral-changed-by-time_step(0) (+ the time_step contract), only at dt = 0
+  M21 (c) marker force only recomputed ``if self.virtual_boundary_stiffness_coeff:``                                     VIOLATION  marker-force!=model / eul-forcing!=model in the dedicated k = 0 direct histories; ALSO
+                                                                                                                                    reached by the pre-existing 6 % draws of stiffness 0 (now counted, with a REQUIRE)
+  M22 (d) __init__: ``if not isinstance(dx, (float, np.floating)): dx = float(np.float32(dx))`` (0-d arrays coerced)     VIOLATION  marker-force / velocity-mismatch / eul-forcing != model, every witness a float64
+                                                                                                                                    direct history with 'scalars_passed_as': '0d-array'
+  M23 (e) nodal rod grid keeps ``cosserat_rod.position_collection[:grid_dim]`` from construction and reads that          VIOLATION  evaluation-uses-stale-markers, every witness after a 'rebind-arrays+move' op
+
 Soundness notes (measured on the unchanged tree, seeds 0..5 quick + 0,1 thorough, both precisions): every
 err/tol ratio stays <= 0.07 (headroom >= 14x).  Three things had to be modelled to get there, none of them a
 defect: (1) PyElastica stores element lengths as |dx| + 1e-14, so the rod grids report s_max 3e-13 (relative)
@@ -46,7 +92,7 @@ forcing clock ``time`` into a float32 for the rest of the run, so the clock is c
 
 Self-test (tools/mut.sh --sed, quick tier, seed 0; VBF = sopht/numeric/immersed_boundary_ops/
 VirtualBoundaryForcing.py, IBFI = sopht/simulator/immersed_body/immersed_body_flow_interaction.py,
-RG = sopht/simulator/immersed_body/rigid_body/rigid_body_forcing_grids.py).  21 mutations, 21 caught:
+RG = sopht/simulator/immersed_body/rigid_body/rigid_body_forcing_grids.py).  21 mutations, 21 caught (M1-M17 below; M18-M23 above):
 
   #    mutation                                                               verdict    mechanism
   M1   VBF  evaluation also advances the integral (I += 1e-3 e before step 5) VIOLATION  marker-force!=model (5e12 tol)
@@ -84,7 +130,10 @@ RULE = (
     "time_step(dt) with dt log-uniform 1e-6..1e-1, move body, overwrite flow field, external zeroing / overwriting of the "
     "forcing field} addressed at 1-3 bodies sharing one Eulerian forcing field, each body in reset or accumulate mode, "
     "2-D (circular cylinder, rod nodal / element-centric / edge grids) and 3-D (sphere, rod surface grid with/without caps), "
-    "float32 and float64, random non-square grids, random stiffness/damping (both signs) and start time.  After every op "
+    "float32 and float64, random non-square grids, random stiffness/damping (both signs) and start time; every third history with "
+    "non-contiguous Eulerian fields; dt as python float / NumPy scalar / 0-d array, 8 % of the steps with dt = 0; plus, per shard, "
+    "4 (quick) / 12 histories on a bare VirtualBoundaryForcing object with per-call array layouts, a tight loop of temporary-view "
+    "arguments, exactly-zero coefficients / fields / steps and all scalar types of the scalar arguments.  After every op "
     "every observable of every body is compared with the model.  A history is non-trivial if it contains at least one "
     "evaluation and one time step; distinct = (dim, dtype, body kinds, reset flags, op-pattern class)."
 )
@@ -117,6 +166,24 @@ REQUIRE = {
     "ctor_with_defaults_left_out": 20,
     "ctor_with_explicit_shift_and_width": 20,
     "grid_cyl2d": 3, "grid_nodal": 3, "grid_elem": 3, "grid_edge": 3, "grid_sphere": 3, "grid_surface": 3,
+    # workload dimensions added later (array layout, temporary views, exact zeros, scalar types)
+    "histories_noncontiguous_eulerian_fields": 60,
+    "histories_with_body_arrays_rebound_like_finalize": 40,
+    "evaluations_after_body_arrays_rebound": 40,
+    "time_steps_with_dt_exactly_zero": 40,
+    "time_steps_dt_as_np.float64": 40,
+    "time_steps_dt_as_0d-array": 40,
+    "vbf_direct_histories": 48,
+    "vbf_direct_ops_compared": 500,
+    "vbf_calls_with_noncontiguous_array_arguments": 150,
+    "vbf_calls_with_temporary_view_arguments": 150,
+    "vbf_time_steps_dt_exactly_zero": 150,
+    "vbf_evaluations_exactly_zero_velocity_mismatch": 80,
+    "vbf_spreads_of_exactly_zero_marker_force": 48,
+    "vbf_time_steps_with_exactly_zero_velocity_mismatch": 40,
+    "vbf_evaluations_zero_stiffness_nonzero_damping": 30,
+    "vbf_evaluations_zero_damping_nonzero_stiffness_and_integral": 30,
+    "vbf_ctor_scalars_as_python-float": 8, "vbf_ctor_scalars_as_np.float64": 8, "vbf_ctor_scalars_as_working-precision-scalar": 8, "vbf_ctor_scalars_as_0d-array": 8,
 }
 K = 16.0
 
@@ -395,6 +462,312 @@ class Body:
         return True
 
 
+def history_layout(hidx):
+    """array layout of the Eulerian fields of history ``hidx``: every third history non-contiguous, alternating the two layouts numba
+    distinguishes (any strided view is layout 'A', column-major storage is 'F': one more compilation each per closure)"""
+    return {1: "views", 4: "fortran"}.get(hidx % 6)
+
+
+def layout_view(rng, a, lay):
+    """the values of ``a`` (>= 2 axes) as a non-contiguous array: "views" = interior of a sentinel-padded parent or every second element
+    of a parent along every axis, "fortran" = column-major storage (a (d, N) Lagrangian field: (N, d) storage passed as ``.T``)"""
+    if lay is None:
+        return a
+    return util.noncontiguous_copy(rng, a, mode="fortran" if lay == "fortran" else ("pad", "step")[int(rng.integers(2))])
+
+
+# ------------------------------------------------------------------------------------------------
+# VirtualBoundaryForcing driven directly (the class the interactions inherit the PI law from): every array is a caller argument
+# ------------------------------------------------------------------------------------------------
+SCALAR_KINDS = ("python-float", "np.float64", "working-precision-scalar", "0d-array")
+N_DIRECT = {"quick": 4, "thorough": 12}
+
+
+def scalar_as(kind, v, real_t):
+    """the value v as one of the scalar types a caller may pass where the API takes a scalar"""
+    if kind == "python-float":
+        return float(v)
+    if kind == "np.float64":
+        return np.float64(float(v))
+    if kind == "working-precision-scalar":
+        return real_t(v)
+    if kind == "0d-array":
+        return np.array(real_t(v))
+    raise ValueError(kind)
+
+
+def expected_field(m, w, sup, gdr, f0, dx, eps):
+    """model of the Eulerian forcing field after one full evaluation of body model ``m`` on a field that held ``f0`` (same recurrences
+    as in ``run_history``): (values, running noise floor)"""
+    d = m.d
+    sp = spread(w, m.F, dx)
+    absum = spread(w, np.abs(m.F), dx)  # sum over markers of |contribution| per cell
+    cnt = spread(sup, np.ones_like(m.F), dx) * dx**d  # markers whose stencil covers the cell: one rounding each
+    sp_t = spread(w, m.F_t, dx) + gdr * spread(sup, np.abs(m.F), dx)
+    if m.reset:
+        return sp, sp_t + m.eps * (K + 2 * cnt) * absum
+    f0 = np.asarray(f0, np.float64)
+    return f0 + sp, sp_t + m.eps * (K + 2 * cnt) * (np.abs(f0) + absum)
+
+
+def run_direct(rec, rng, sh, j):
+    """One history on ONE ``VirtualBoundaryForcing`` object called the way ``ImmersedBodyFlowInteraction`` calls it, but with every
+    array a caller argument, so that the argument dimensions the interactions never vary can be driven:
+
+    0. a fresh object (I = 0) evaluated on fluid at rest and markers at rest: e = 0 and F = 0 EXACTLY, and spreading the all-zero F leaves
+       a finite pre-filled forcing field unchanged (accumulate) / exactly zero (reset mode);
+    1. evaluations / time steps whose array arguments are, per call, contiguous / strided or padded views / column-major ((N, d) storage
+       passed as ``.T`` for the Lagrangian arrays) -- results read back through ``np.ascontiguousarray``;
+    2. K = 3..6 full evaluations + time steps in a tight loop where every array argument is a TEMPORARY view ``stack[name][k]`` of
+       different memory (CPython recycles their id()), compared afterwards: every ``stack["f"][k]`` and the final marker state;
+    3. ``time_step(0)`` in every scalar type (integral and clock unchanged exactly); fluid and markers at rest again, now with I != 0
+       (e = 0 exactly; with stiffness 0 the force is exactly zero and the forcing field keeps its values).
+    Scalar arguments (dx, shift, coefficients, start time, dt) are passed as python floats / np.float64 / working-precision scalars /
+    0-d arrays; stiffness 0 with damping != 0 and damping 0 with stiffness != 0 are dedicated cases.  The model and its noise floors are
+    those of ``run_history`` (``k_eff = k``: the rescaling by the marker spacing belongs to the interaction classes)."""
+    from sopht.numeric.immersed_boundary_ops import VirtualBoundaryForcing
+
+    d = sh["dim"]
+    real_t = util.DT[sh["dtype"]]
+    eps = util.eps(real_t)
+    pool = POOL[d][sh["pool"]]
+    dxv = real_t(pool["dx"])
+    dx = float(dxv)
+    shiftv = real_t(dxv / 2)
+    shift = float(shiftv)
+    lo_n, hi_n = SHAPE_RANGE[d]
+    shape = util.shape2d(rng, lo_n, hi_n) if d == 2 else util.shape3d(rng, lo_n, hi_n)
+    ext = [shape[d - 1 - a] * dx for a in range(d)]
+    lo = [2.5 * dx] * d
+    hi = [ext[a] - 2.5 * dx for a in range(d)]
+    # marker count of the pool's first body (cylinder / sphere): the (dx, N) closures are the ones the interactions compile anyway
+    N = Body(pool["bodies"][0], d, rng, lo, hi).fresh_grid().num_lag_nodes
+    kind = SCALAR_KINDS[(j + sh["rep"]) % 4]
+    zero_mode = ("k=0", "c=0", "none", "none")[j % 4]
+    reset = bool((j // 2 + sh["pool"] + sh["rep"]) % 2)
+    kc = 0.0 if zero_mode == "k=0" else -float(10 ** rng.uniform(2, 5)) * float(rng.choice([1, 1, 1, -1]))
+    cc = 0.0 if zero_mode == "c=0" else -float(10 ** rng.uniform(-1, 1.5)) * float(rng.choice([1, 1, 1, -1]))
+    t0 = float(rng.choice([0.0, rng.uniform(-1, 5)]))
+    # start_time is never passed as a 0-d array: ``self.time += dt`` would then update the CALLER's array in place (Python semantics of
+    # += on an ndarray attribute), which says nothing about the PI law
+    k_arg, c_arg = scalar_as(kind, kc, real_t), scalar_as(kind, cc, real_t)
+    t_arg = scalar_as("working-precision-scalar" if kind == "0d-array" else kind, t0, real_t)
+    ckw = dict(virtual_boundary_stiffness_coeff=k_arg, virtual_boundary_damping_coeff=c_arg, grid_dim=d, dx=scalar_as(kind, dxv, real_t), num_lag_nodes=N,
+               real_t=real_t, enable_eul_grid_forcing_reset=reset, num_threads=2, start_time=t_arg)
+    if j % 2:
+        ckw.update(eul_grid_coord_shift=scalar_as(kind, shiftv, real_t), interp_kernel_width=2)
+    meta = {"dim": d, "dtype": sh["dtype"], "shape": list(shape), "dx": dx, "N": N, "object": "VirtualBoundaryForcing (direct)", "scalars_passed_as": kind,
+            "zero_coefficient": zero_mode, "reset": reset}
+    rec.count("vbf_direct_histories")
+    rec.count(f"vbf_ctor_scalars_as_{kind}")
+    ops = []
+
+    def fail(mech, msg):
+        rec.violation(mech, f"{msg} after op #{len(ops) - 1} {ops[-1] if ops else None}; {meta}", {"meta": meta, "ops": ops, "j": j})
+        return False
+
+    try:
+        vb = VirtualBoundaryForcing(**ckw)
+    except Exception as e:
+        fail("ctor-raises", f"{type(e).__name__}: {str(e)[:300]}")
+        rec.case(None)
+        return
+    m = Model(d, N, float(k_arg), float(c_arg), float(t_arg), reset, eps)
+    n_real = 0
+
+    def compare(f_got=None, f_ref=None, f_tol=None):
+        ok = True
+        for name, got, ref, tol in (
+            ("marker-force", vb.lag_grid_forcing_field, m.F, m.F_t),
+            ("integral", vb.lag_grid_position_mismatch_field, m.I, m.I_t),
+            ("velocity-mismatch", vb.lag_grid_velocity_mismatch_field, m.e, m.e_t),
+        ):
+            r = util.err_over_tol(got, ref, tol + 1e-300)
+            rec.stat(name, r); rec.stat(f"{name}_{sh['dtype']}_{d}d", r)
+            if r > 1:
+                ok = fail(f"{name}!=model", f"err/tol={r:.3g} max|ref|={util.maxabs(ref):.3g}")
+        r = abs(float(vb.time) - m.t) / (m.t_t + 1e-300)
+        rec.stat("time", r)
+        if r > 1:
+            ok = fail("time!=start+sum(dt)", f"time={vb.time!r} model={m.t!r}")
+        if f_got is not None:
+            r = util.err_over_tol(f_got, f_ref, f_tol + 1e-300)
+            rec.stat("eulerian-forcing", r); rec.stat(f"eulerian-forcing_{sh['dtype']}_{d}d", r)
+            if r > 1:
+                ok = fail("eul-forcing!=model", f"err/tol={r:.3g} max|ref|={util.maxabs(f_ref):.3g}")
+        rec.count("vbf_direct_ops_compared")
+        return ok
+
+    def inputs(rest=False):
+        """(u, X, V): flow field in working precision, float64 marker positions >= 2.5 cells inside and marker velocities (the forcing
+        grids' arrays are float64); rest: fluid and markers at rest"""
+        X = np.array([rng.uniform(lo[a], hi[a], N) for a in range(d)])
+        if rest:
+            return np.zeros((d, *shape), real_t), X, np.zeros((d, N))
+        u = _gen_u(rng, shape, d, real_t, float(rng.choice([1e-2, 1.0, 1.0, 1e2])))
+        return u, X, float(rng.choice([0.1, 1.0, 1.0, 30.0])) * rng.standard_normal((d, N))
+
+    def evaluate(op, u, X, V, f, lay=None):
+        """one real evaluation ('call' = full interaction into f, 'lag' = marker force only) with the arrays in layout ``lay``, followed by
+        the model and the comparison; returns (ok, field read back)"""
+        nonlocal n_real
+        ua = layout_view(rng, u, lay)
+        ua.flags.writeable = False  # what the interactions hand over: a read-only view of the flow velocity
+        Xa = np.ascontiguousarray(X.T).T if lay else X  # positions: C or (N, d) storage passed as .T (strided ones: see the docstring)
+        Va = layout_view(rng, V, lay)
+        fa = layout_view(rng, f.copy(), lay) if lay else f
+        f0 = f.copy()
+        ops.append([op, lay])
+        try:
+            if op == "call":
+                vb.compute_interaction_forcing(eul_grid_forcing_field=fa, eul_grid_velocity_field=ua, lag_grid_position_field=Xa, lag_grid_velocity_field=Va)
+            else:
+                vb.compute_interaction_force_on_lag_grid(eul_grid_velocity_field=ua, lag_grid_position_field=Xa, lag_grid_velocity_field=Va)
+        except Exception as e:
+            return fail(f"{op}-raises", f"{type(e).__name__}: {str(e)[:300]}"), f
+        n_real += 1
+        if lay:
+            rec.count("vbf_calls_with_noncontiguous_array_arguments")
+            rec.count(f"vbf_calls_layout_{lay}")
+        if not (util.bits_equal(ua, u) and util.bits_equal(Xa, X) and util.bits_equal(Va, V)):
+            return fail("evaluation-modifies-its-inputs", "flow velocity, marker positions or marker velocities changed"), f
+        got = np.ascontiguousarray(fa)
+        if op != "call" and not util.bits_equal(got, f0):
+            return fail("eul-forcing-touched-by-lag-only-evaluation", "compute_interaction_force_on_lag_grid changed an array it was not given"), f
+        w, sup, gdr = m.evaluate(X, V, u.astype(np.float64), shape, dx, shift)
+        if m.k == 0 and m.c != 0 and np.any(m.e != 0):
+            rec.count("vbf_evaluations_zero_stiffness_nonzero_damping")
+        if m.c == 0 and m.k != 0 and np.any(m.I != 0):
+            rec.count("vbf_evaluations_zero_damping_nonzero_stiffness_and_integral")
+        if op == "call":
+            fref, ftol = expected_field(m, w, sup, gdr, f0, dx, eps)
+            return compare(got, fref, ftol), got
+        return compare(), got
+
+    def step(dt, dkind):
+        arg = scalar_as(dkind, dt, real_t)
+        ops.append(["dt", float(arg), dkind])
+        I0, tb = np.array(vb.lag_grid_position_mismatch_field, copy=True), float(vb.time)
+        try:
+            vb.time_step(arg)
+        except Exception as e:
+            return fail("dt-raises", f"{type(e).__name__}: {str(e)[:300]}")
+        rec.count(f"vbf_time_steps_dt_as_{dkind}")
+        if float(arg) == 0.0:
+            rec.count("vbf_time_steps_dt_exactly_zero")
+            if not np.array_equal(vb.lag_grid_position_mismatch_field, I0):
+                return fail("integral-changed-by-time_step(0)", f"time_step({arg!r}) changed the integral of the velocity mismatch")
+            if abs(float(vb.time) - tb) > eps * abs(tb):  # one rounding: NEP 50 makes the clock a working-precision scalar
+                return fail("time-changed-by-time_step(0)", f"time_step({arg!r}) moved the clock from {tb!r} to {vb.time!r}")
+        elif not np.any(m.e):
+            rec.count("vbf_time_steps_with_exactly_zero_velocity_mismatch")
+            if not np.array_equal(vb.lag_grid_position_mismatch_field, I0):
+                return fail("integral-changed-by-zero-velocity-mismatch", f"time_step({arg!r}) with an exactly zero velocity mismatch changed the integral")
+        m.step(arg)
+        return compare()
+
+    def at_rest(f):
+        """fluid and markers at rest: e = 0 exactly; when also k * I = 0 exactly the all-zero marker force must leave the finite field
+        unchanged (accumulate) or exactly zero (reset mode)"""
+        u, X, V = inputs(rest=True)
+        f0 = f.copy()
+        ok, got = evaluate("call", u, X, V, f)
+        if not ok:
+            return False, got
+        rec.count("vbf_evaluations_exactly_zero_velocity_mismatch")
+        if np.any(vb.lag_grid_velocity_mismatch_field != 0):
+            return fail("velocity-mismatch!=0-for-fluid-and-markers-at-rest", f"max |e| = {util.maxabs(vb.lag_grid_velocity_mismatch_field)!r}"), got
+        if m.k == 0 or not np.any(m.I):
+            rec.count("vbf_spreads_of_exactly_zero_marker_force")
+            if np.any(vb.lag_grid_forcing_field != 0):
+                return fail("marker-force!=0-for-zero-mismatch-and-zero-stiffness-or-integral", f"max |F| = {util.maxabs(vb.lag_grid_forcing_field)!r}"), got
+            want = np.zeros_like(f0) if reset else f0
+            if not np.array_equal(got, want):
+                return fail("zero-marker-force-changes-eul-forcing", f"{int((got != want).sum())} cells of the forcing field differ from {'zero (reset mode)' if reset else 'their previous values'}"), got
+        return True, got
+
+    def body():
+        nonlocal n_real
+        # a finite, sentinel-free forcing field
+        f = util.field(rng, (d, *shape), "noise", real_t)
+        # -- 0: fresh object, everything at rest
+        ok, f = at_rest(f)
+        if not ok:
+            return
+        # -- 1: evaluations and steps, array layouts varied per call
+        u, X, V = inputs()
+        nev = 0
+        for i in range(int(rng.integers(8, 15))):
+            op = str(rng.choice(["call", "call", "lag", "dt", "dt"]))
+            if i == 0:
+                op = "call"
+            if op == "dt":
+                if not step(float(10 ** rng.uniform(-6, -1)), SCALAR_KINDS[int(rng.integers(4))]):
+                    return
+                continue
+            if rng.random() < 0.6:
+                u, X, V = inputs()
+            lay = (None, "views", "fortran")[nev % 3]
+            nev += 1
+            ok, f = evaluate(op, u, X, V, f, lay)
+            if not ok:
+                return
+        # -- 2: tight loop, every array argument a temporary view of different memory
+        Kh = int(rng.integers(3, 7))
+        ins = [inputs() for _ in range(Kh)]
+        S = {
+            "u": np.stack([i_[0] for i_ in ins]),
+            "X": np.stack([i_[1] for i_ in ins]),
+            "V": np.stack([i_[2] for i_ in ins]),
+            "f": np.stack([util.field(rng, (d, *shape), str(rng.choice(["noise", "small", "int"])), real_t) for _ in range(Kh)]),
+        }
+        S["u"].flags.writeable = False
+        dts = [scalar_as(SCALAR_KINDS[int(rng.integers(4))], float(10 ** rng.uniform(-6, -1)), real_t) for _ in range(Kh)]
+        before = {n: S[n].copy() for n in S}
+        ops.append(["temporary-view-history", Kh])
+        try:
+            for k in range(Kh):
+                vb.compute_interaction_forcing(eul_grid_forcing_field=S["f"][k], eul_grid_velocity_field=S["u"][k], lag_grid_position_field=S["X"][k], lag_grid_velocity_field=S["V"][k])
+                vb.time_step(dts[k])
+        except Exception as e:
+            fail("call-raises", f"history of temporary views, call {k + 1} of {Kh}: {type(e).__name__}: {str(e)[:300]}")
+            return
+        n_real += 2 * Kh
+        rec.count("vbf_histories_of_temporary_view_arguments")
+        rec.count("vbf_calls_with_temporary_view_arguments", Kh)
+        if not all(util.bits_equal(S[n], before[n]) for n in ("u", "X", "V")):
+            fail("evaluation-modifies-its-inputs", "flow velocity, marker positions or marker velocities changed during the history of temporary views")
+            return
+        for k in range(Kh):
+            w, sup, gdr = m.evaluate(before["X"][k], before["V"][k], before["u"][k].astype(np.float64), shape, dx, shift)
+            fref, ftol = expected_field(m, w, sup, gdr, before["f"][k], dx, eps)
+            r = util.err_over_tol(S["f"][k], fref, ftol + 1e-300)
+            rec.stat("eulerian-forcing", r)
+            rec.stat("eulerian-forcing_temporary_view_history", r)
+            if r > 1:
+                fail("eul-forcing!=model", f"call {k + 1} of {Kh} with temporary views stack[name][k] of different memory: err/tol={r:.3g} max|ref|={util.maxabs(fref):.3g}")
+                return
+            m.step(dts[k])
+        if not compare():
+            return
+        # -- 3: exact zeros with a non-trivial integral
+        for dk in SCALAR_KINDS:
+            if not step(0.0, dk):
+                return
+        ok, f = at_rest(f)
+        if not ok:
+            return
+        if not step(float(10 ** rng.uniform(-4, -1)), SCALAR_KINDS[int(rng.integers(4))]):  # e = 0 exactly: the integral keeps its values
+            return
+        u, X, V = inputs()
+        ok, f = evaluate("call", u, X, V, f)
+        if not ok:
+            return
+
+    body()
+    rec.case((d, sh["dtype"], "vbf-direct", kind, zero_mode, reset), sample={**meta, "ops_head": ops[:8]}, n=max(1, n_real))
+
+
 # ------------------------------------------------------------------------------------------------
 # one history
 # ------------------------------------------------------------------------------------------------
@@ -425,9 +798,17 @@ def run_history(rec, rng, sh, hidx, length, force=None):
     uscale = float(rng.choice([1e-2, 1.0, 1.0, 1e2]))
     u = _gen_u(rng, shape, d, real_t, uscale)
     f = np.zeros((d, *shape), real_t) if rng.random() < 0.5 else util.field(rng, (d, *shape), "noise", real_t)
+    meta = {"dim": d, "dtype": sh["dtype"], "shape": list(shape), "dx": dx, "bodies": [s["kind"] for s in specs]}
+    lay = history_layout(hidx)
+    if lay is not None:
+        # the two Eulerian fields the caller hands to the constructor are NON-contiguous views holding the same values (interior of a
+        # sentinel-padded parent / every second cell of a parent / column-major storage); everything below reads them through NumPy
+        u, f = layout_view(rng, u, lay), layout_view(rng, f, lay)
+        meta["eulerian_field_layout"] = lay
+        rec.count("histories_noncontiguous_eulerian_fields")
+        rec.count(f"histories_eulerian_fields_layout_{lay}")
     fm = f.astype(np.float64)
     fm_t = np.zeros_like(fm)
-    meta = {"dim": d, "dtype": sh["dtype"], "shape": list(shape), "dx": dx, "bodies": [s["kind"] for s in specs]}
 
     bodies, its, models = [], [], []
     for s in specs:
@@ -487,6 +868,12 @@ def run_history(rec, rng, sh, hidx, length, force=None):
     n_real = 0
     pattern = set()
     ncalls = [0] * nb
+    # every fourth history: at one point every array ATTRIBUTE of one body is replaced by another array object with the same values
+    # (what PyElastica's simulator.finalize() does AFTER the interactor was built), the body is then moved through its new arrays and
+    # the same interaction object is evaluated again: a reference to a body array taken at construction would be stale
+    rebind_at = int(rng.integers(1, max(2, (2 * length) // 3))) if hidx % 4 == 2 else -1
+    pending = []
+    rebound = [False] * nb
 
     def fail(mech, msg):
         rec.violation(mech, f"{msg} after op #{len(ops) - 1} {ops[-1] if ops else None}; {meta} reset={flags}",
@@ -525,19 +912,49 @@ def run_history(rec, rng, sh, hidx, length, force=None):
     for step in range(length):
         op = str(rng.choice(OPS, p=OPW))
         ib = int(rng.integers(0, nb))
+        if step == rebind_at:
+            pending = [("rebind+move", ib), (str(rng.choice(["call", "forces", "lag"])), ib)]
+        if pending:
+            op, ib = pending.pop(0)
         it, m, b = its[ib], models[ib], bodies[ib]
+        rebind = op == "rebind+move"
+        if rebind:
+            op = "move"
         if op == "dt":
             dt = float(10 ** rng.uniform(-6, -1))
-            arg = real_t(dt) if rng.random() < 0.3 else dt
+            r_kind = rng.random()
+            if rng.random() < 0.08:
+                dt = 0.0  # a step of exactly zero length: integral and clock keep their values
+            # scalar type of the argument: working-precision scalar (30 %), np.float64, 0-d array (working precision or float64), python float
+            if r_kind < 0.3:
+                arg, akind = real_t(dt), "working-precision-scalar"
+            elif r_kind < 0.4:
+                arg, akind = np.float64(dt), "np.float64"
+            elif r_kind < 0.5:
+                arg, akind = np.array(dt, dtype=(real_t if rng.random() < 0.5 else np.float64)), "0d-array"
+            else:
+                arg, akind = dt, "python-float"
+            rec.count(f"time_steps_dt_as_{akind}")
             ops.append(["dt", ib, float(arg)])
         elif op == "move":
+            if rebind:
+                from .. import bodies as rv_bodies
+
+                rec.count("body_array_attributes_rebound", rv_bodies.rebind_arrays(b.body))
+                rec.count("histories_with_body_arrays_rebound_like_finalize")
+                rebound[ib] = True
             moved = b.move(rng, dx, lo, hi)
-            ops.append(["move", ib, bool(moved)])
+            for _ in range(5 if rebind else 0):  # a move that would leave the admissible box is reverted: try again
+                moved = moved or b.move(rng, dx, lo, hi)
+            ops.append(["rebind-arrays+move" if rebind else "move", ib, bool(moved)])
             rec.count("body_moves" if moved else "moves_rejected")
         elif op == "flow":
             if rng.random() < 0.3:
                 uscale = float(rng.choice([1e-2, 1.0, 1e2]))
             u[...] = _gen_u(rng, shape, d, real_t, uscale)
+            if rng.random() < 0.15:
+                u[...] = 0  # fluid at rest: with a body at rest the velocity mismatch is exactly zero
+                rec.count("flow_overwrites_with_all_zero_field")
             ops.append(["flow", None, uscale])
             rec.count("flow_overwrites")
         elif op == "zero":
@@ -556,6 +973,9 @@ def run_history(rec, rng, sh, hidx, length, force=None):
             u0 = u.copy()
             f0 = f.copy()
             snaps = [bb.snapshot() for bb in bodies]
+            zero_dt = op == "dt" and float(arg) == 0.0
+            if zero_dt:
+                I_before, t_before = np.array(it.lag_grid_position_mismatch_field, copy=True), float(it.time)
             try:
                 if op == "dt":
                     it.time_step(arg)
@@ -586,6 +1006,15 @@ def run_history(rec, rng, sh, hidx, length, force=None):
             if op != "call" and not util.bits_equal(f, f0):
                 fail("eul-forcing-touched-by-" + ("time_step" if op == "dt" else "lag-only-evaluation"), f"{op} changed the Eulerian forcing field")
                 break
+            if zero_dt:
+                # Euler forward over a step of exactly zero length: I + 0 * e = I and t + 0 = t (compared by value, finite e)
+                rec.count("time_steps_with_dt_exactly_zero")
+                if not np.array_equal(it.lag_grid_position_mismatch_field, I_before):
+                    fail("integral-changed-by-time_step(0)", f"body {ib}: time_step({arg!r}) changed the integral of the velocity mismatch")
+                    break
+                if abs(float(it.time) - t_before) > eps * abs(t_before):  # one rounding: NEP 50 makes the clock a working-precision scalar
+                    fail("time-changed-by-time_step(0)", f"body {ib}: time_step({arg!r}) moved the clock from {t_before!r} to {it.time!r}")
+                    break
             # model
             if op == "dt":
                 if m.stepped_since_eval:
@@ -608,6 +1037,14 @@ def run_history(rec, rng, sh, hidx, length, force=None):
                 w, sup, gdr = m.evaluate(X, V, u.astype(np.float64), shape, dx, shift)
                 if d == 3 and m.k != 0 and np.any(m.I != 0):
                     rec.count("evaluations_3d_with_nonzero_integral_and_stiffness")  # s_max**(d-1) vs s_max*(d-1) differ only here
+                if m.k == 0 and m.c != 0 and np.any(m.e != 0):
+                    rec.count("evaluations_zero_stiffness_nonzero_damping")
+                if m.c == 0 and m.k != 0 and np.any(m.I != 0):
+                    rec.count("evaluations_zero_damping_nonzero_stiffness_and_integral")
+                if not np.any(u0) and not np.any(V):
+                    rec.count("evaluations_with_exactly_zero_velocity_mismatch")  # the model's floor is 0 there: compared exactly
+                if rebound[ib]:
+                    rec.count("evaluations_after_body_arrays_rebound")
                 if m.evaluated_since_step:
                     rec.count("repeated_evaluations_without_step")
                 if m.stepped_since_eval:
@@ -669,6 +1106,10 @@ def run_shard(sh, rec):
             run_history(rec, rng, sh, h, length, force=same_n[sh["pool"]])
         else:
             run_history(rec, rng, sh, h, length)
+    # VirtualBoundaryForcing driven directly on this shard's (dx, N): layouts, temporary views, exact zeros, scalar types
+    drng = util.rng_for(seed, ID, sh["name"], "direct")
+    for j in range(N_DIRECT[tier]):
+        run_direct(rec, drng, sh, j)
 
 
 N_HIST = {"quick": 19, "thorough": 375}  # 16 x 19 = 304 and 32 x 375 = 12000 histories (~0.29 CPU-s each)
